@@ -22,7 +22,11 @@ OptOrder == <<"user", "computer", "domain", "ip">>
 OptSetting(o, v) == IF o = "ip" THEN BE(8, 2) \o BE(2, 2) \o BE(4, 2) \o BE(v, 4)
                     ELSE BE(OptIndex[o], 2) \o BE(1, 2) \o BE(2, 2) \o BE(v, 2)
 ChecksumSetting(c) == BE(9, 2) \o BE(2, 2) \o BE(4, 2) \o BE(c, 4)
-GuardCfg(opts, stored) == Pad(Concat([i \in 1..Len(opts) |-> OptSetting(opts[i], 4660 + i)]) \o ChecksumSetting(stored) \o <<0, 0>>, GUARD)
+\* the payload checksum is usually the last setting; the token "checksum" in `opts` puts it anywhere among the options
+HasChecksumToken(opts) == \E i \in 1..Len(opts) : opts[i] = "checksum"
+GuardSettings(opts, stored) == Concat([i \in 1..Len(opts) |-> IF opts[i] = "checksum" THEN ChecksumSetting(stored) ELSE OptSetting(opts[i], 4660 + i)])
+                               \o (IF HasChecksumToken(opts) THEN <<>> ELSE ChecksumSetting(stored))
+GuardCfg(opts, stored) == Pad(GuardSettings(opts, stored) \o <<0, 0>>, GUARD)
 \* the protected area: masked configuration followed by the masked guard configuration
 Protect(cfg, key, opts, stored) == LET m == Mask(Pad(cfg, CFG), key) IN m \o GuardMask(GuardCfg(opts, stored), m)
 StoredFor(cfg) == Checksum(Pad(cfg, CFG)) + 1
